@@ -1,0 +1,63 @@
+//! Verification hook (feature `verif-hooks`, off by default): a thread-local
+//! log of every write and durability barrier the linear storage issues on a
+//! graph file, in program order. Recording changes no behaviour.
+
+use alloc::vec::Vec;
+use core::cell::RefCell;
+
+/// One I/O operation on a graph file, or a marker placed by the harness.
+#[derive(Clone, Debug, PartialEq, Eq)]
+pub enum IoEvent {
+    /// `pwrite` accepted `data` at `offset` (one event per accepted chunk).
+    Write {
+        /// File offset of the chunk.
+        offset: i64,
+        /// The bytes accepted.
+        data: Vec<u8>,
+    },
+    /// `fdatasync` returned successfully.
+    Fdatasync,
+    /// `fsync` returned successfully.
+    Fsync,
+    /// `fallocate(mode 0, offset, len)` returned successfully.
+    Fallocate {
+        /// Start of the allocated range.
+        offset: i64,
+        /// Length of the allocated range.
+        len: i64,
+    },
+    /// Harness marker (see [`mark`]).
+    Mark(u64),
+}
+
+::std::thread_local! {
+    static LOG: RefCell<Option<Vec<IoEvent>>> = const { RefCell::new(None) };
+}
+
+/// Start (or restart) recording on this thread.
+pub fn start() {
+    LOG.with(|l| *l.borrow_mut() = Some(Vec::new()));
+}
+
+/// Stop recording and return what was recorded.
+pub fn take() -> Vec<IoEvent> {
+    LOG.with(|l| l.borrow_mut().take().unwrap_or_default())
+}
+
+/// Number of events recorded so far.
+pub fn len() -> usize {
+    LOG.with(|l| l.borrow().as_ref().map_or(0, Vec::len))
+}
+
+/// Append a harness marker to the log.
+pub fn mark(m: u64) {
+    record(IoEvent::Mark(m));
+}
+
+pub(super) fn record(ev: IoEvent) {
+    LOG.with(|l| {
+        if let Some(v) = l.borrow_mut().as_mut() {
+            v.push(ev);
+        }
+    });
+}
